@@ -19,6 +19,10 @@ ASSUMPTIONS = ['enum GdsiiRecord values are those of the format (checked in C03)
 XREF_FILES = ['src/library.cpp', 'src/rawcell.cpp']
 
 
+# decided by R-MODEL.header (the bytes both writers emit, against the format); the spelling comparison of the two writers is evidence only
+ADVISORY = [('R-CLONE', r'^gds-header/'), ('R-CLONE', r'^gds-trailer/')]
+
+
 def norm(t):
     return re.sub(r'<[A-Za-z]+:(?!:)[^>]*>', '', t).replace('gdstk::', '')
 
@@ -176,6 +180,113 @@ def check_header_clones(ctx, db):
     sc = next((v for v in wg.walk() if v.k == 'VarDecl' and v.n == 'scaling'), None)
     ok = '(this->unit / this->precision), this->max_points, this->precision, (&this->timestamp))' in t and sc is not None and norm(sc.child('init').text()) == '(this->unit / this->precision)'
     ctx.check(ok, 'R-CLONE', 'gds-cell-scaling', wc.loc(), 'both writers hand cells scaling = unit / precision and the same precision')
+
+
+def header_bytes(db, which, name, ts):
+    """Library::write_gds on a library without cells (`which` = 'library'), or gdswriter_init followed by GdsWriter::close
+    ('writer'), interpreted (sa/minieval, C integer widths, little-endian host): fopen / fwrite / fclose are answered by the harness,
+    which collects the bytes written; gdsii_real_from_double is answered by a token that depends on its argument only (the encoder
+    itself is decided by C19). Returns (bytes written, number of fclose calls, files opened)."""
+    from .. import minieval as M
+    from fractions import Fraction
+    files = []
+
+    def tok(v):
+        v = Fraction(v)
+        return 0x4000000000000000 | ((v.numerator * 1000003 + v.denominator * 7919) & 0xFFFFFFFFFFFF)
+
+    def extra(callee, args, node):
+        c = callee or ''
+        short = c.split('::')[-1]
+        if short == 'fopen':
+            h = M.Obj(file=True, data=bytearray(), closed=0)
+            files.append(h)
+            return (h,)
+        if short == 'fclose':
+            args[0]['closed'] += 1
+            return (0,)
+        if short == 'strlen':
+            return (len(args[0]),)
+        if short == 'gdsii_real_from_double':
+            return (tok(args[0]),)
+        if short == 'fwrite':
+            ptr, size, count, out = args
+            size, count = int(size), int(count)
+            if not isinstance(out, M.Obj) or not out.get('file') or out['closed']:
+                raise M.OutOfBounds('fwrite to something that is not an open file at %s' % node.loc())
+            if isinstance(ptr, str):
+                if size * count > len(ptr) + 1:
+                    raise M.OutOfBounds('fwrite of %d bytes from a string of %d characters at %s' % (size * count, len(ptr), node.loc()))
+                out['data'] += (ptr.encode() + b'\0')[:size * count]
+            else:
+                if ptr.i + count > len(ptr.arr):
+                    raise M.OutOfBounds('fwrite of %d elements from an array of %d at %s' % (count, len(ptr.arr) - ptr.i, node.loc()))
+                for k_ in range(count):
+                    out['data'] += int(ptr.arr[ptr.i + k_]).to_bytes(size, 'little')
+            return (count,)
+        return None
+    ref = [None]
+    mi = M.Mini(db, hook=M.array_hook(ref, extra), budget=300000, c_ints=True, globals={'error_logger': 0})
+    mi.obj_store = True
+    ref[0] = mi
+    unit, precision = Fraction(1, 10 ** 6), Fraction(1, 10 ** 9)
+
+    def call(f, env):
+        try:
+            mi.run(f.body, env)
+        except M.Return as r:
+            return r.v
+        return None
+    if which == 'library':
+        f = db.fn('gdstk::Library::write_gds')
+        empty = lambda: M.Obj(items=0, count=0, capacity=0)
+        this = M.Obj(name=name, unit=unit, precision=precision, cell_array=empty(), rawcell_array=empty())
+        vals = {'filename': 'out.gds', 'max_points': 199, 'timestamp': M.Obj(**ts)}
+        call(f, dict({'this': this}, **{p['n']: vals[p['n']] for p in f.params}))
+    else:
+        f = db.fn('gdstk::gdswriter_init')
+        vals = {'filename': 'out.gds', 'library_name': name, 'unit': unit, 'precision': precision, 'max_points': 199, 'timestamp': M.Obj(**ts), 'error_code': 0}
+        w = call(f, {p['n']: vals[p['n']] for p in f.params})
+        if not isinstance(w, M.Obj):
+            raise AnalysisBroken('gdswriter_init: no writer object returned')
+        call(db.fn('gdstk::GdsWriter::close'), {'this': w})
+    return (bytes(files[0]['data']) if files else b''), (files[0]['closed'] if files else 0), len(files), unit, precision, tok
+
+
+def check_header_bytes(ctx, db):
+    """R-MODEL.header: the bytes both GDSII writers put around the cells, against the format: HEADER (version 600), BGNLIB with the
+    time stamp twice (year + 1900, month + 1), LIBNAME padded with NUL to even length, UNITS with real(precision / unit) and
+    real(precision), ENDLIB - big-endian throughout - then the file is closed once. Library::write_gds on a library without cells
+    and gdswriter_init + GdsWriter::close must both give exactly these bytes (hence the same bytes), for names of odd and even
+    length. Whatever statements, buffers and helpers produce them."""
+    import struct
+    from ..minieval import OutOfBounds
+    ts = dict(tm_year=126, tm_mon=9, tm_mday=3, tm_hour=17, tm_min=5, tm_sec=59, tm_wday=6, tm_yday=275, tm_isdst=0)
+    n = 0
+    for which, fq in (('library', 'gdstk::Library::write_gds'), ('writer', 'gdstk::gdswriter_init')):
+        f = db.fn(fq)
+        ctx.touch(f)
+        for name in ('LIB', 'LIBR', 'L', 'library'):
+            n += 1
+            why = None
+            try:
+                data, closed, nfiles, unit, precision, tok = header_bytes(db, which, name, ts)
+            except OutOfBounds as ex:
+                data, why = b'', str(ex)
+            if why is None:
+                stamp = struct.pack('>6H', 2026, 10, 3, 17, 5, 59)
+                padded = name.encode() + (b'\0' if len(name) % 2 else b'')
+                want = struct.pack('>3H', 6, 0x0002, 600) + struct.pack('>2H', 28, 0x0102) + stamp + stamp + struct.pack('>2H', 4 + len(padded), 0x0206) + padded \
+                    + struct.pack('>2H', 20, 0x0305) + struct.pack('>2Q', tok(precision / unit), tok(precision)) + struct.pack('>2H', 4, 0x0400)
+                if nfiles != 1 or closed != 1:
+                    why = '%d file(s) opened, closed %d time(s)' % (nfiles, closed)
+                elif data != want:
+                    k_ = next((i for i in range(min(len(data), len(want))) if data[i] != want[i]), min(len(data), len(want)))
+                    why = 'library name "%s": %d bytes written, the format has %d; first difference at byte %d (written %s, format %s)' % (name, len(data), len(want), k_, data[k_:k_ + 8].hex(), want[k_:k_ + 8].hex())
+            ctx.check(why is None, 'R-MODEL.header', '%s/name=%s' % ('Library::write_gds' if which == 'library' else 'gdswriter_init+close', name), f.loc(),
+                      'HEADER, BGNLIB, LIBNAME, UNITS and ENDLIB exactly as the format has them', why)
+    ctx.explored['valuations'] += n
+    ctx.require('R-MODEL.header writer runs', n, 8)
 
 
 def check_rawcells(ctx, db):
@@ -559,6 +670,7 @@ def run(ctx):
     ctx.attempt(check_sibling_tables, ctx, db)
     ctx.attempt(check_units, ctx, db)
     ctx.attempt(check_header_clones, ctx, db)
+    ctx.attempt(check_header_bytes, ctx, db)
     ctx.attempt(check_rawcells, ctx, db)
     ctx.attempt(check_timestamp, ctx, db)
     ctx.attempt(check_tag_filter, ctx, db)
